@@ -8,7 +8,7 @@ Local Open Scope Z_scope.
 Lemma witness_loop_step f n acc bs : bs <> [] ->
   witness_loop (S f) n acc bs =
   bind (parse_compact_size_uint bs) (fun x => let '(push, item_bytes) := x in
-    if n - 1 =? 0 then Ok (rev (takeZ push item_bytes :: acc), dropZ push item_bytes)
+    if n - 1 =? 0 then Ok (rev_append (takeZ push item_bytes :: acc) [], dropZ push item_bytes)
     else witness_loop f (n - 1) (takeZ push item_bytes :: acc) (dropZ push item_bytes)).
 Proof. destruct bs; [congruence|reflexivity]. Qed.
 
@@ -54,7 +54,7 @@ Proof.
   replace (Z.of_nat (length (d :: ds)) - 1) with (Z.of_nat (length ds)) by (cbn [length]; lia).
   destruct ds as [|d' ds'].
   - cbn [length Z.of_nat Z.eqb]. cbn [witness_items_ser] in Hb. injection Hb as <-.
-    cbn [rev app]. reflexivity.
+    rewrite rev_append_rev, app_nil_r. cbn [rev]. reflexivity.
   - destruct (Z.eqb_spec (Z.of_nat (length (d' :: ds'))) 0) as [E|E]; [cbn [length] in E; lia|].
     rewrite IH; [|discriminate|exact Hb|cbn [length] in *; lia].
     cbn [rev]. now rewrite <- app_assoc.
